@@ -209,8 +209,8 @@ def run(ctx):
     first = True
     # ---------------------------------------------------------------- 2. R: repository histories
     total = collections.Counter()
-    for cfg, num, depth, keep in [(ctx.q("c08_repo_sim_merge_quick.cfg", "c08_repo_sim_merge_thorough.cfg"), ctx.q(220, 2500), ctx.q(36, 50), ctx.q(22, 500)),
-                                  (ctx.q("c08_repo_sim_ws_quick.cfg", "c08_repo_sim_ws_thorough.cfg"), ctx.q(160, 2000), ctx.q(34, 48), ctx.q(14, 400))]:
+    for cfg, num, depth, keep in [(ctx.q("c08_repo_sim_merge_quick.cfg", "c08_repo_sim_merge_thorough.cfg"), ctx.q(100, 2500), ctx.q(36, 50), ctx.q(16, 500)),
+                                  (ctx.q("c08_repo_sim_ws_quick.cfg", "c08_repo_sim_ws_thorough.cfg"), ctx.q(80, 2000), ctx.q(34, 48), ctx.q(10, 400))]:
         beh = ctx.tlc_behaviours("RepoGC.tla", cfg, num=num, depth=depth, timeout=ctx.q(1800, 3 * 3600))
         beh = bk.dedupe_prefix(beh, lambda b: b["steps"])
         beh = bk.select(beh, bk.repo_score, keep)
@@ -232,12 +232,12 @@ def run(ctx):
         ctx.sample({"mode": "repo", "steps": ["%s %s(%s) -> %s%s" % (s["s"], s["a"], json.dumps(s["args"], sort_keys=True) if s["args"] else "", s["res"], (" [gc inside: %s]" % m) if m else "")
                                                 for s, m in zip(b["steps"], b["mid"])]})
     # ---------------------------------------------------------------- 3. G: gated schedules
-    for mode, cfg, num, depth in [("vs", ctx.q("c08_gc_sched_quick.cfg", "c08_gc_sched_thorough.cfg"), ctx.q(140, 1500), ctx.q(70, 110)),
-                                  ("sql", ctx.q("c08_gc_sql_quick.cfg", "c08_gc_sql_thorough.cfg"), ctx.q(40, 500), ctx.q(70, 110))]:
+    for mode, cfg, num, depth in [("vs", ctx.q("c08_gc_sched_quick.cfg", "c08_gc_sched_thorough.cfg"), ctx.q(100, 1500), ctx.q(70, 110)),
+                                  ("sql", ctx.q("c08_gc_sql_quick.cfg", "c08_gc_sql_thorough.cfg"), ctx.q(32, 500), ctx.q(70, 110))]:
         beh = ctx.tlc_behaviours("GC.tla", cfg, num=num, depth=depth, timeout=ctx.q(1800, 3 * 3600))
         beh = bk.dedupe_prefix(beh, lambda b: b)
         if mode == "sql":
-            beh = bk.select(beh, lambda b: sum(1 for s in b if s["a"] in ("Swap",) or s["res"] in ("waitfin", "blocked")), ctx.q(24, 300))
+            beh = bk.select(beh, lambda b: sum(1 for s in b if s["a"] in ("Swap",) or s["res"] in ("waitfin", "blocked")), ctx.q(16, 300))
         sess = bk.gc_sessions(cfg)
         cases = []
         for i, b in enumerate(beh):
